@@ -36,7 +36,20 @@ class _Base(Stage):
 
     def execute(self, case):
         tr, res = tracker.run_history(case['specs'], CHECKS, case.get('dialect', 'new'))
+        before = [str(m) for m in tr.msgs]
         tracker.check_after_close(tr, res)
+        # the same log through the tool's line loop, its last line not terminated by a newline (a log can end like that): every line,
+        # the last one included, reads as it did above - a final delete_id is annotated, a final creation exists
+        from .. import session, wire
+        dialect = case.get('dialect', 'new')
+        lines = [wire.render(m, dialect if dialect != 'old-comma' else 'old', comma=(dialect == 'old-comma')) for m in case['specs']]
+        s = session.Session()
+        s.run([['line', l] for l in lines[:-1]] + [['raw', lines[-1]]])
+        got = [str(m) for m in s.messages()]
+        if got != before:
+            k = next((i for i, (a, b) in enumerate(zip(before, got)) if a != b), min(len(before), len(got)))
+            res.bad('line-loop:unterminated-last-line' if k >= len(before) - 1 else 'line-loop:differs', 'line %d of %d: directly %r, through the line loop %r' % (
+                k, len(before), before[k] if k < len(before) else None, got[k] if k < len(got) else None))
         self.finish(case, res)
         return res
 
